@@ -208,7 +208,7 @@ def finite_shape_model(hyps, shapes=(2, 3, 1, 4), timeout_ms=4000):
     for h in hyps:
         try:
             for v in z3util.get_vars(h):
-                if v.sort() == I and re.search(r'(!n|!len)$', str(v)):
+                if v.sort() == I and (re.search(r'(!n|!len)$', str(v)) or re.match(r'^(G|flen)!\d+$', str(v))):
                     consts[str(v)] = v
         except Exception:
             pass
@@ -223,6 +223,28 @@ def finite_shape_model(hyps, shapes=(2, 3, 1, 4), timeout_ms=4000):
             s.add(v == p)
         if s.check() == sat:
             return ('all of %s = %d' % (sorted(consts), p), s.model())
+    # independent small values: let the solver pick each length in 0..3, then pin what it picked (two-stage)
+    s = Solver()
+    s.set('timeout', 3 * timeout_ms)
+    for h in hyps:
+        s.add(h)
+    for v in consts.values():
+        s.add(And(v >= 0, v <= 3))
+    if s.check() == sat:
+        m = s.model()
+        return ('lengths within 0..3: %s' % {k: str(m.eval(v)) for k, v in consts.items()}, m)
+    import itertools as _it
+    names = sorted(consts)
+    if len(names) <= 5:
+        for combo in _it.product((0, 1, 2), repeat=len(names)):
+            s = Solver()
+            s.set('timeout', 1500)
+            for h in hyps:
+                s.add(h)
+            for nm, val in zip(names, combo):
+                s.add(consts[nm] == val)
+            if s.check() == sat:
+                return ('%s' % dict(zip(names, combo)), s.model())
     return None
 
 
